@@ -1,1 +1,129 @@
-def hello := "world"
+/-
+  EqlModel.Basic — vocabulary shared by every layer of the model.
+
+  No imports beyond core Lean.  Everything here is computable; the property theorems quantify
+  over an arbitrary `World V` (the primitives of the host language), so they do not depend on
+  how the driver encodes Python's `==`, `<`, `in`, `bool()` (that encoding is `PyPrim.lean`).
+-/
+namespace Eql
+
+/-- Identifier of a symbolic variable (or of a `Flatten`/`Concatenate` node, which binds its own
+    id exactly like a variable does).  Mirrors `SymbolicExpression._id_`. -/
+abbrev VarId := Nat
+
+/-- The operations a `Comparator` node can hold (symbolic.py: `Comparator.operation`):
+    the six rich comparisons, `operator.contains` and its inverse `not_contains`. -/
+inductive CmpOp where
+  | eq | ne | lt | le | gt | ge | contains | notContains
+  deriving DecidableEq, Repr, Inhabited
+
+/-- The six rich-comparison spellings a user can write between two expressions. -/
+inductive SurfOp where
+  | eq | ne | lt | le | gt | ge
+  deriving DecidableEq, Repr, Inhabited
+
+/-- CPython's reflected-operand rule: when the left operand is a plain value, `a op b` is
+    answered by `b.__mirror(op)__(a)`. -/
+def SurfOp.mirror : SurfOp → SurfOp
+  | .eq => .eq | .ne => .ne | .lt => .gt | .le => .ge | .gt => .lt | .ge => .le
+
+/-- Primitives of the host language.  `cmp op a b` is `op(a, b)`, in particular
+    `cmp .contains c i` is `operator.contains(c, i)`, i.e. `i in c`. -/
+structure World (V : Type) where
+  attr    : String → V → V
+  index   : V → V → V
+  call    : String → List V → V → V
+  cmp     : CmpOp → V → V → Bool
+  truthy  : V → Bool
+  /-- elements of a value as `flatten`/`concatenate` see it; a non-iterable is a singleton -/
+  items   : V → List V
+  /-- `isinstance(v, cls)` (subclasses included) -/
+  isInst  : String → V → Bool
+  /-- user predicates (`@predicate` functions and `Predicate.__call__`) -/
+  fn      : String → List V → V
+  /-- `list(...)` of values, the value a `Concatenate` node yields -/
+  mkList  : List V → V
+
+/-- "Ordinary Python semantics" of the comparison operators on the values a query meets:
+    each operator and its table inverse are complementary, and a comparison and its mirrored
+    spelling agree.  The driver's concrete world is checked against CPython on every run. -/
+structure World.Lawful {V : Type} (W : World V) : Prop where
+  ne_eq  : ∀ a b, W.cmp .ne a b = !W.cmp .eq a b
+  ge_lt  : ∀ a b, W.cmp .ge a b = !W.cmp .lt a b
+  le_gt  : ∀ a b, W.cmp .le a b = !W.cmp .gt a b
+  nc_c   : ∀ a b, W.cmp .notContains a b = !W.cmp .contains a b
+  gt_lt  : ∀ a b, W.cmp .gt a b = W.cmp .lt b a
+  eq_comm : ∀ a b, W.cmp .eq a b = W.cmp .eq b a
+
+/-- A binding: newest first association list, `dict.update` is consing.  -/
+abbrev Bnd (V : Type) := List (VarId × V)
+
+/-- A total assignment, the reference notion a binding is compared with. -/
+abbrev Asg (V : Type) := VarId → V
+
+/-- `α` agrees with `β` wherever `β` is defined. -/
+def Ext {V : Type} (β : Bnd V) (α : Asg V) : Prop :=
+  ∀ v a, β.lookup v = some a → α v = a
+
+def bound {V : Type} (β : Bnd V) (v : VarId) : Bool := (β.lookup v).isSome
+
+/-- Value-position expressions (`CanBehaveLikeAVariable`): variables, literals, domain mappings.
+    `flatten id t` is a `Flatten` node: it binds its own id to one inner element per output. -/
+inductive Term (V : Type) where
+  | var     (v : VarId)
+  | lit     (c : V)
+  | attr    (name : String) (t : Term V)
+  | index   (key : V) (t : Term V)
+  | call    (method : String) (args : List V) (t : Term V)
+  | flatten (id : VarId) (t : Term V)
+  deriving Inhabited
+
+/-- Ids of the `Variable` leaves of a term (`_unique_variables_` without literals). -/
+def Term.vars {V : Type} : Term V → List VarId
+  | .var v => [v]
+  | .lit _ => []
+  | .attr _ t => t.vars
+  | .index _ t => t.vars
+  | .call _ _ t => t.vars
+  | .flatten _ t => t.vars
+
+/-- Ids a term binds when evaluated: its variables and its flatten nodes. -/
+def Term.binds {V : Type} : Term V → List VarId
+  | .var v => [v]
+  | .lit _ => []
+  | .attr _ t => t.binds
+  | .index _ t => t.binds
+  | .call _ _ t => t.binds
+  | .flatten id t => id :: t.binds
+
+/-- Condition-position expressions after construction (what `entity.py`/`symbolic.py` build). -/
+inductive Cond (V : Type) where
+  /-- `Comparator(left, right, operation)` -/
+  | cmp    (op : CmpOp) (l r : Term V)
+  /-- a domain mapping standing in condition position, with its `_invert_` flag -/
+  | truth  (inv : Bool) (t : Term V)
+  /-- a predicate variable (`@predicate` function or `Predicate` subclass) with its `_invert_` flag -/
+  | pred   (inv : Bool) (name : String) (args : List (Term V))
+  | and    (l r : Cond V)
+  | elseIf (l r : Cond V)
+  /-- a sub-query `an(entity(..))`/`an(set_of(..))` used as a condition: selected terms, condition -/
+  | sub    (sel : List (Term V)) (c : Cond V)
+  deriving Inhabited
+
+def Terms.vars {V : Type} : List (Term V) → List VarId
+  | [] => []
+  | t :: ts => t.vars ++ Terms.vars ts
+
+def Terms.binds {V : Type} : List (Term V) → List VarId
+  | [] => []
+  | t :: ts => t.binds ++ Terms.binds ts
+
+def Cond.binds {V : Type} : Cond V → List VarId
+  | .cmp _ l r => l.binds ++ r.binds
+  | .truth _ t => t.binds
+  | .pred _ _ args => Terms.binds args
+  | .and l r => l.binds ++ r.binds
+  | .elseIf l r => l.binds ++ r.binds
+  | .sub sel c => c.binds ++ Terms.binds sel
+
+end Eql
